@@ -160,6 +160,21 @@ def run(ctx):
         ctx.add_merged(m)
         ctx.log('%s K=%d: %d strings; %s' % (cname, K, m['n'], {k: v for k, v in m['counters'].items() if ':' in k}))
         validate(ctx, m)
+    # C->S on the repository's own tests: every top-level parse result the tests produce
+    from . import c11
+    trees = c11.run_repo_tests(ctx, None, kind='trees')
+    if trees:
+        flags, diags = common.validate_traces(ctx, 'TraceTree', trees, what='C->S TraceTree acceptor on repository-test trees')
+        ctx.traces_validated += len(trees)
+        ctx.evaluations += len(trees)
+        ctx.counters['repo_test_trees'] += len(trees)
+        for idx, tr in enumerate(trees):
+            if not flags[idx]:
+                d = diags.get(idx, {})
+                ctx.violation('acceptor-rejects', dict(s=uncodes(tr['s']), ctx='(repository test)', mode=tr['kind']), detail=d,
+                              sig=dict(clause='acceptor-rejects', kind=tr['kind'], failed=','.join(d.get('failed_clauses', [])) or '?',
+                                       source='repo-tests'))
+        ctx.log('repository tests under the recorder: %d top-level trees, %d accepted' % (len(trees), sum(flags)))
     ctx.exhaustive = True
     ctx.assumptions += ['the default database is represented by its extracted signature table (untranslatable specs: lstlisting)',
                         'tree equality is equality of the public projection (kind, span, names, delimiters, arguments, body, math mode)']
